@@ -1,11 +1,15 @@
 -------------------------- MODULE Trace_FrontEnds --------------------------
-(* C2S judge for C16: [id, fcmds, dcmds (command paths as word sequences), fdiff, ddiff (entries op,row,kids)] *)
+(* C2S judge for C16: [id, fcmds, dcmds (command paths as word sequences), fdiff, ddiff (entries op,row,kids), ferr, derr (the front end raised),
+   wlines, dlines (patch text printed by file_patch_worker for the two files / device-mode patch text, as word sequences; both <<>> when not driven)] *)
 EXTENDS FrontEnds, TLC, Json, IOUtils
 Recs == ndJsonDeserialize(IOEnv.TRACE_FILE)
 VARIABLE i
 Verdict(r) ==
-  IF r.fcmds # r.dcmds THEN <<"patch-differs", FirstDiff(r.fcmds, r.dcmds)>>
+  IF r.ferr # r.derr THEN <<(IF r.derr THEN "file-mode-hides-an-error-of-device-mode" ELSE "file-mode-fails-where-device-mode-works"), 0>>
+  ELSE IF r.ferr THEN <<"ok", 0>>
+  ELSE IF r.fcmds # r.dcmds THEN <<"patch-differs", FirstDiff(r.fcmds, r.dcmds)>>
   ELSE IF r.fdiff # r.ddiff THEN <<"diff-differs", FirstDiff(r.fdiff, r.ddiff)>>
+  ELSE IF ~WorkerAgrees(r.wlines, r.dlines) THEN <<"file-worker-output-differs-from-device-mode", FirstDiff(r.wlines, r.dlines)>>
   ELSE <<"ok", 0>>
 Init == i = 0
 Next == /\ i < Len(Recs) /\ i' = i + 1
